@@ -1030,7 +1030,14 @@ func Throw(_ *VM, ball Term, _ Cont, env *Env) *Promise {
 
 // Catch calls goal. If an exception is thrown and unifies with catcher, it calls recover.
 func Catch(vm *VM, goal, catcher, recover Term, k Cont, env *Env) *Promise {
+	// The catch is active only while goal is being executed. Once goal exits, the errors raised by its continuation
+	// aren't ours to handle, until the execution backtracks into goal.
+	active := true
 	return catch(func(err error) *Promise {
+		if !active {
+			return nil
+		}
+
 		e, ok := err.(Exception)
 		if !ok {
 			e = Exception{term: atomError.Apply(NewAtom("system_error"), NewAtom(err.Error()))}
@@ -1043,7 +1050,16 @@ func Catch(vm *VM, goal, catcher, recover Term, k Cont, env *Env) *Promise {
 
 		return Call(vm, recover, k, env)
 	}, func(ctx context.Context) *Promise {
-		return Call(vm, goal, k, env)
+		return Call(vm, goal, func(env *Env) *Promise {
+			return Delay(func(context.Context) *Promise {
+				active = false
+				return k(env)
+			}, func(context.Context) *Promise {
+				// The continuation has failed. We're going back into goal.
+				active = true
+				return Bool(false)
+			})
+		}, env)
 	})
 }
 
